@@ -83,6 +83,30 @@ Section Ser.
     end.
 End Ser.
 
+(* preprocessTriple's shortcut: with a base, a predicate that starts with the base and has neither
+   '#' nor '/' in node.replace(base, "") "corresponds to the base namespace" and is not looked at *)
+Fixpoint remove_all (fuel : nat) (s pat : str) : str :=
+  match fuel with
+  | O => s
+  | S f => match s with
+           | [] => []
+           | c :: r => if starts_with s pat then remove_all f (skipn (length pat) s) pat
+                       else c :: remove_all f r pat
+           end
+  end.
+Definition str_replace_empty (s pat : str) : str :=
+  match pat with [] => s | _ => remove_all (S (length s)) s pat end.
+Definition pred_skipped (base : option str) (u : str) : bool :=
+  match base with
+  | None => false
+  | Some b => starts_with u b
+              && negb (existsb (N.eqb 35) (str_replace_empty u b))
+              && negb (existsb (N.eqb 47) (str_replace_empty u b))
+  end.
+(* the calls preprocess makes: (IRI, is it the predicate?) -> (IRI, gen_prefix) *)
+Definition eff_calls (base : option str) (calls : list (str * bool)) : list (str * bool) :=
+  filter (fun e => negb (snd e && pred_skipped base (fst e))) calls.
+
 (* sorted(self.namespaces.items()): by prefix (keys are distinct), code point order *)
 Fixpoint str_leb (a b : str) : bool :=
   match a, b with
@@ -99,7 +123,7 @@ Definition header_of (t : sst) : list (str * str) := fold_right insert_sorted []
 
 (* ------------------------------------------------------------------ *)
 (* correspondence entry points *)
-Record scase := { sc_cats : cattab; sc_setup : list op; sc_calls : list (str * bool) }.
+Record scase := { sc_cats : cattab; sc_setup : list op; sc_base : option str; sc_calls : list (str * bool) }.
 
 Record sobs := {
   so_list : list (str * str);       (* list(store.namespaces()) after serialize *)
@@ -116,7 +140,7 @@ Definition sc_split (c : scase) := split_uri (cat_of (sc_cats c)) false.
 Definition ser_model (c : scase) : sobs :=
   let s := m_final (sc_split c) (split_uri (cat_of (sc_cats c)) true) (is_ncname (cat_of (sc_cats c)))
                    m_init (sc_setup c) in
-  let x := ser_pre (sc_split c) s z_init (sc_calls c) in
+  let x := ser_pre (sc_split c) s z_init (eff_calls (sc_base c) (sc_calls c)) in
   let s' := fst (fst x) in let t := snd (fst x) in
   let raised := existsb (fun e => match snd e with QRaise => true | _ => false end) (snd x) in
   {| so_list := p2n s'; so_rev := n2p s'; so_ns := z_ns t; so_rw := z_rw t;
